@@ -73,6 +73,13 @@ def run(model, tier="quick"):
     # constructors establish the relations between fields that the references above take for granted
     from .ctor_refs import constructors
     res.units["constructor_references"] = constructors(res, model, ('aave', 'market'))
+    # premise: the wallet primitives the Aave operations call move exactly the stated amount (dust rule: RELATIVE 1e-5)
+    from . import C03 as _C03
+    _wfx = ["sub", "add", "subtract_from_balance", "add_to_balance", "__add_asset", "_record_action_callback"]
+    effects_check(res, model, "Asset.sub", _C03.REF_ASSET_SUB, "wallet debit: overdraft rejected, dust (<1e-5 relative) snaps to zero", _wfx)
+    effects_check(res, model, "Asset.add", _C03.REF_ASSET_ADD, "wallet credit adds the amount", _wfx)
+    effects_check(res, model, "Broker.subtract_from_balance", _C03.REF_BROKER_SUB, "broker debit: unknown token rejected unless negative balances are allowed", _wfx)
+    effects_check(res, model, "Broker.add_to_balance", _C03.REF_BROKER_ADD, "broker credit: creates the entry when missing", _wfx)
     from ..rules.fresh import fresh_rule
     if "R-FRESH" not in res.rules:
         res.rules.append("R-FRESH")
